@@ -23,13 +23,16 @@ impl FromStr for Move {
 
     fn from_str(s: &str) -> Result<Self, Self::Err> {
         fn parse(s: &str) -> Option<Move> {
+            if s.len() > 5 {
+                return None;
+            }
             Some(Move {
                 from: s.get(0..2)?.parse().ok()?,
                 to: s.get(2..4)?.parse().ok()?,
                 promotion: if let Some(promotion) = s.get(4..5) {
                     let promotion = promotion.parse().ok()?;
                     if matches!(promotion, Piece::King | Piece::Pawn) {
-                        None
+                        return None;
                     } else {
                         Some(promotion)
                     }
